@@ -104,7 +104,8 @@ ht2mjd(const unsigned int *cal, size_t nm, struct ymd_s h)
 {
 	const unsigned int i = (h.y - 1U) * 12U + (h.m - 1U) - SM(cal);
 
-	if (UNLIKELY(i >= nm)) {
+	if (UNLIKELY(i >= nm - 1U)) {
+		/* not covered, the last transition only ends the table */
 		return 0U;
 	}
 	return MT(cal)[i] + (h.d - 1U);
@@ -161,8 +162,8 @@ mjd2ht(const unsigned int *cal, size_t nm, mjd_t d)
 	unsigned int m;
 
 	for (i = 0U; i < nm && MT(cal)[i] <= d; i++);
-	if (UNLIKELY(i >= nm)) {
-		/* that's beyond our time */
+	if (UNLIKELY(i >= nm || i == 0U)) {
+		/* that's beyond or before our time */
 		goto nil;
 	}
 	/* M is the month count */
@@ -351,9 +352,15 @@ echs_instant_rescale(echs_instant_t i, echs_scale_t tgt)
 			break;
 		case SCALE_HIJRI_UMMULQURA:
 			d = ht2mjd(dat_ummulqura, NM(dat_ummulqura), ymp);
+			if (UNLIKELY(!d)) {
+				goto nul;
+			}
 			break;
 		case SCALE_HIJRI_DIYANET:
 			d = ht2mjd(dat_diyanet, NM(dat_diyanet), ymp);
+			if (UNLIKELY(!d)) {
+				goto nul;
+			}
 			break;
 		default:
 			goto nul;
